@@ -937,7 +937,7 @@ SPECS = [
     RuleSpec("C02.R4", rule_r4, 3, "A8", "un-reseated map times the notes; reseated map (same inputs) feeds the tempo list; #OFFSET field"),
     RuleSpec("C02.R5", rule_r5, 3, "A8", "every chart of the file is returned"),
     RuleSpec("C02.R6", rule_r6, 2, "A8", "no None placeholder reaches a dereference"),
-    RuleSpec("C02.R7", rule_r7, 4, "A5", "expanders number columns by the per-column buffer index"),
+    RuleSpec("C02.R7", rule_r7, 4, "A5", "expanders number columns by the per-column buffer index, visit every buffer (no early exit) and keep every collected position"),
     RuleSpec("C02.R9", rule_r9, 4, "A7", "row position shapes: beat slice bounds, fraction inside the beat, Snap arguments"),
     RuleSpec("C02.R8", rule_r8, 6, "A3", "every chart gets its own list objects (fresh defaults per instance)"),
     RuleSpec("C02.R10", rule_r10, 1, "A8", "every collected position is put into the position -> ms table the expanders look up"),
